@@ -59,7 +59,7 @@ def tsan(ck):
         ck.notes.append("TSan build failed: " + str(e)[-200:])
         return
     env = small_env(ck)
-    env["TSAN_OPTIONS"] = "halt_on_error=1 exitcode=66"
+    env["TSAN_OPTIONS"] = "halt_on_error=1 exitcode=66 suppressions=" + os.path.join(wv.HARNESS, "tsan.supp")
     cases = enc_cases(ck, 60, maxchunks=4)
     impl = wv.run_lines([exe], ["e%d %s" % (i, c.line()) for i, c in enumerate(cases)], env=env)
     bad = [impl.get("e%d" % i, "") for i in range(len(cases)) if not split_impl(impl.get("e%d" % i, ""))[0].startswith("OK ")]
